@@ -156,7 +156,9 @@ harmonic {
 NATOMS = {"twin": 4}
 POSITIONS = {"twin": ["pos 1 0 0 1.25", "pos 2 0 0 0.5", "pos 3 0 0 2.0"]}
 CONFIG_SABF = _EXT_CV + _ABF % "  shared on\n  sharedFreq 1000\n  CZARestimator off\n"
-CONFIGS = {"base": CONFIG, "grid": CONFIG_GRID, "extra": CONFIG_EXTRA, "eabf": CONFIG_EABF, "eabf_nocz": CONFIG_EABF_NOCZ,
+# the grid configuration with other boundaries (8 bins instead of 4): only a target of the cross-configuration loads
+CONFIG_GRID8 = CONFIG_GRID.replace("upperBoundary 4.0", "upperBoundary 8.0")
+CONFIGS = {"grid8": CONFIG_GRID8, "base": CONFIG, "grid": CONFIG_GRID, "extra": CONFIG_EXTRA, "eabf": CONFIG_EABF, "eabf_nocz": CONFIG_EABF_NOCZ,
            "eabf_harm": CONFIG_EABF_HARM, "hist": CONFIG_HIST, "sabf": CONFIG_SABF, "twin": CONFIG_TWIN}
 PRELUDE = {"extra": ["temperature 300"], "eabf": ["temperature 300"], "eabf_nocz": ["temperature 300"], "eabf_harm": ["temperature 300"],
            "sabf": ["temperature 300", "replicas 0 2 -1 -1"]}
@@ -1128,9 +1130,10 @@ def run_large_steps_and_cross_loads(run, vsim, d, quick):
         refs, chunking, rel = reference(vsim, d, sess)
         states[c] = refs
     r = V.rng("C11cross")
-    pairs = [(a, b) for a in names for b in names if a != b]
+    pairs = [(a, b) for a in names for b in names + ["grid8"] if a != b]
+    must = [("grid", "grid8"), ("hist", "grid8")]     # the same objects with other grid boundaries
     if quick:
-        pairs = r.sample(pairs, 12)
+        pairs = must + r.sample([x for x in pairs if x not in must], 10)
     p = os.path.join(d.path, "dmg.colvars.state")
     for a, b in pairs:
         for fi, fmt in ((0, "text"), (1, "binary")):
